@@ -5,7 +5,7 @@
    the tokens back — Space tokens dropped, a lone control character renamed, line and
    position assigned by the scanner's own bookkeeping — followed by EOF. *)
 From Coq Require Import String Ascii.
-From Verif Require Import Base Params Value Lexer Literals Parser LexerProofs LexBridge LexBridge2 LexBridge3 ParserProofs Complete ParseRun.
+From Verif Require Import Base Params Value Lexer Literals Parser LexerProofs LexBridge LexBridge2 LexBridge3 ParserProofs Complete StripInv ParseRun.
 Close Scope string_scope.
 Open Scope Z_scope.
 
@@ -53,7 +53,6 @@ Theorem lex_render ts : scannable ts -> lex (render_toks ts) = place ts 1 1.
 Proof. intro S. unfold lex. apply lex_loop_render; auto. Qed.
 
 (* forgetting lines and positions: the non-space tokens, control characters renamed, then EOF *)
-Definition strip (t : token) : rtok := (ttype_of t, tval t).
 Definition visible (x : rtok) : bool := match fst x with TSpace => false | _ => true end.
 Lemma place_strip : forall ts line pos,
   map strip (place ts line pos) = map (fun x => (fst x, rename (snd x))) (filter visible ts) ++ [(TEOF, [])].
@@ -70,6 +69,34 @@ Theorem parse_render fparse crank ts dts v eols eof :
   parse_source fparse crank (render_toks ts) = PValue v.
 Proof.
   intros S E D F Ty. eapply parser_complete_source; eauto. rewrite lex_render; auto.
+Qed.
+
+(* the same with the derivation given on any tokens of the same types and texts (lines and
+   positions do not matter): the visible tokens of the rendering, control characters renamed,
+   are the sentence followed by n EOL tokens *)
+Lemma eols_of_strip : forall n l, map strip l = repeat (TEOL, zs "<EOLN>") n -> Forall eolt l.
+Proof.
+  induction n as [|n IH]; intros l H; simpl in H.
+  - apply map_eq_nil in H. subst. constructor.
+  - apply map_eq_cons in H. destruct H as (a & r & E & S & H). subst. constructor; auto.
+    unfold strip in S. inversion S. unfold eolt. auto.
+Qed.
+
+Theorem parse_render_strip fparse crank ts dts v n :
+  scannable ts ->
+  map (fun x => (fst x, rename (snd x))) (filter visible ts) = map strip dts ++ repeat (TEOL, zs "<EOLN>") n ->
+  dcoll fparse crank dts v ->
+  parse_source fparse crank (render_toks ts) = PValue v.
+Proof.
+  intros S E D.
+  pose proof (place_strip ts 1 1) as Hp. rewrite E, <- app_assoc in Hp.
+  apply map_eq_app in Hp. destruct Hp as (dts' & r & Ep & Hd & Hr).
+  apply map_eq_app in Hr. destruct Hr as (eols' & l3 & Er & He & Hf). subst r.
+  apply map_eq_cons in Hf. destruct Hf as (eof' & l4 & E4 & Sf & Hn). apply map_eq_nil in Hn. subst.
+  eapply parse_render; eauto.
+  - eapply dcoll_strip; eauto.
+  - eapply eols_of_strip; eauto.
+  - unfold strip in Sf. inversion Sf. auto.
 Qed.
 
 (* discharging [scannable] class by class (instances of the first-token lemmas) *)
